@@ -154,6 +154,7 @@ func (g *Gen) scheds(end int64) string {
 	sort.Slice(cuts, func(i, j int) bool { return cuts[i] < cuts[j] })
 	var parts []string
 	t := end
+	prevT := end
 	for i := 0; i < n; i++ {
 		w := cuts[i+1] - cuts[i]
 		t += g.r.PickI(1, nsHour, nsDay, 3*nsDay, 1000000000)
@@ -165,6 +166,11 @@ func (g *Gen) scheds(end int64) string {
 		if g.r.P(g.bad()) {
 			tt = end - g.r.PickI(0, 1, nsHour)
 		}
+		if i > 0 && g.r.P(g.bad()) {
+			// not strictly after the previous release time: equal, or one nanosecond earlier
+			tt = prevT - g.r.PickI(0, 0, 1)
+		}
+		prevT = tt
 		parts = append(parts, fmt.Sprintf("%d@%s", tt, ws))
 	}
 	return strings.Join(parts, ";")
